@@ -317,8 +317,11 @@ def check_predef(ctx: Ctx, case: dict) -> None:
     else:
         ref = oracle_dc.table_3_1_lgpc(state, params)
         if ref["unsure"]:
-            require(math.isfinite(got) and abs(got) <= abs(params[2]) *
-                    (1 + 1e-9), f"{name}: |output| {got!r} exceeds |p2|")
+            if ref.get("may_overflow") and math.isnan(got):
+                labels.append("predef_sine_of_overflowed_quotient")
+            else:
+                require(math.isfinite(got) and abs(got) <= abs(params[2]) *
+                        (1 + 1e-9), f"{name}: |output| {got!r} exceeds |p2|")
             ctx.rec.case(case, nontrivial=False,
                          labels=[*labels, "predef_ill_conditioned_skipped"])
             return
